@@ -1212,7 +1212,7 @@ pub fn check_drops(w: &World, rep: &mut Report, props: &[&str], extra: &J) {
     // the pool thread that ran the last background run drops its reference to the worker (and
     // with it the item stream) asynchronously: give the counts a moment to settle. A real leak
     // never settles, so this grace period cannot hide one.
-    let deadline = Instant::now() + Duration::from_millis(1500);
+    let deadline = Instant::now() + Duration::from_millis(10_000);
     loop {
         let settled = (0..n as usize).all(|i| w.reg.created[i].load(Ordering::Relaxed) == w.reg.drops[i].load(Ordering::Relaxed));
         if settled || Instant::now() > deadline {
